@@ -136,7 +136,7 @@ Definition rel_post (force : bool) (s' : state) : Prop :=
 Theorem do_release_outcome force fuel :
   t_pc (thr s0 t) = PIdle -> (o_cnt ob0 + 4 <= fuel)%nat ->
   exists s', do_call fuel s0 t (CRel o force) = (s', RNone) /\ RFrame s' /\
-    t_pc (thr s' t) = PIdle /\ t_prog (thr s' t) = [] /\ t_res (thr s' t) = RNone :: res0 /\ rel_post force s'.
+    t_pc (thr s' t) = PIdle /\ t_proc (thr s' t) = p /\ t_prog (thr s' t) = [] /\ t_res (thr s' t) = RNone :: res0 /\ rel_post force s'.
 Proof.
   intros Hpc Hfu. unfold do_call, rel_post.
   set (sp := pop_prog s0 t [CRel o force]).
@@ -153,7 +153,7 @@ Proof.
   2:{ (* not held: no-op *)
       destruct (Nat.eqb (o_proc ob0) (t_proc (thr s0 t)));
         (rewrite run_alone_done; [|unfold call_done, sq, sp; ev; reflexivity]); unfold last_result at 1, sq, sp; ev;
-        (eexists; split; [reflexivity|]); (split; [|split; [|split; [|split; [|split]]]]); ev; auto;
+        (eexists; split; [reflexivity|]); (split; [|split; [|split; [|split; [|split; [|split]]]]]); ev; auto;
         apply F0; intros; unfold sq, sp; ev; rewrite ?upd_other by congruence; auto. }
   set (c' := pred (o_cnt ob0)).
   set (cs' := if force then remove_all o (t_cs (thr s0 t)) else remove_one o (t_cs (thr s0 t))).
